@@ -499,7 +499,8 @@ impl Runner {
             } else {
                 let mut lin = c["lin"].clone();
                 lin["modes"] = json!(["lin","lin","skip","skip"]);
-                lin["mag"] = json!(sax.abs().max(say.abs()).max(sbx.abs()).max(sby.abs()));
+                let origin = c["origin"].as_f64().unwrap_or(0.0) * rho.max(1.0);
+                lin["mag"] = json!(sax.abs().max(say.abs()).max(sbx.abs()).max(sby.abs()).max(origin));
                 if num(3) != 0.0 {
                     // lon - lon_0 is rounded at the magnitude of the longitudes: a few ulp(pi) radians on the ground
                     let extra = c["ground"].as_f64().unwrap_or(0.0) * c["lin"]["lon_ulps"].as_f64().unwrap_or(0.0) * ulp(std::f64::consts::PI);
@@ -509,7 +510,7 @@ impl Runner {
                 ang["modes"] = json!(["ang","ang","skip","skip"]);
                 {
                     // removing a false origin rounds at its magnitude; seen from the sphere that is ulp(shift) / (k_0 * a) radians
-                    let shift = sax.abs().max(say.abs()).max(sbx.abs()).max(sby.abs());
+                    let shift = sax.abs().max(say.abs()).max(sbx.abs()).max(sby.abs()).max(origin);
                     let g = c["ground"].as_f64().unwrap_or(0.0);
                     let gmin = g.min(g / rho);
                     if shift > 0.0 && gmin > 0.0 {
